@@ -1,5 +1,11 @@
 package mpb
 
+import (
+	"strings"
+
+	"github.com/mattn/go-runewidth"
+)
+
 // Harness vocabulary. The symbolic executor (gosmt) intercepts these by name; the bodies below are
 // only used when a counterexample is replayed natively (values come from vModel).
 
@@ -29,3 +35,44 @@ func vYield()          {}
 func vUnwind(n int)    {}
 func vSteps(n int)     {}
 func vSliceCap(n int)  {}
+
+// ---- text vocabulary (native bodies build real strings with the requested display width)
+
+func vText(name string) string {
+	w := int(vModel[name+".w"])
+	n := int(vModel[name+".n"])
+	return vMakeWN(w, n)
+}
+func vBytes(name string) []byte { return []byte(vText(name)) }
+
+// vMakeWN builds a string of display width w and byte length n when possible (ASCII = 1 col/1 byte,
+// CJK = 2 cols/3 bytes, combining mark = 0 cols/2 bytes); falls back to width-only.
+func vMakeWN(w, n int) string {
+	out := ""
+	for cw := w; cw > 0; {
+		if cw >= 2 && n-len(out) >= 3 && n-len(out) > cw {
+			out += "\u4e16"
+			cw -= 2
+		} else {
+			out += "x"
+			cw--
+		}
+	}
+	for len(out)+2 <= n {
+		out += "\u0301"
+	}
+	return out
+}
+func vMakeText(w, nl int) string {
+	out := ""
+	for i := 0; i < w; i++ {
+		out += "x"
+	}
+	for i := 0; i < nl; i++ {
+		out += "\n"
+	}
+	return out
+}
+func vTextWidth(s string) int { return runewidth.StringWidth(s) }
+func vTextLen(s string) int   { return len(s) }
+func vTextNL(s string) int    { return strings.Count(s, "\n") }
